@@ -56,6 +56,10 @@ class C02(PropBase):
                 t = rng.choice([{"k": "bytes"}, {"k": "bytearray"}, {"k": "ref", "m": m0["name"], "n": "VwBytesS"}, {"k": "ref", "m": m0["name"], "n": "VwBytesS"}, {"k": "ref", "m": m0["name"], "n": "VwBytesN"},
                                 {"k": "ref", "m": m0["name"], "n": "VwBytesA"}])
             vals = [gen.gen_value(rng, t, lk, cfg) for _ in range(rng.randint(1, 2))]
+            if rng.random() < 0.15:
+                # a scalar hint at the top with values that are instances of subclasses (bool for int included)
+                t, vals = rng.choice([({"k": "int"}, [True, {"$intsub": 5}, False]), ({"k": "float"}, [{"$floatsub": "1.5"}, {"$f": "2.5"}]),
+                                      ({"k": "str"}, [{"$strsub": "s\u00e9"}, "plain"]), ({"k": "int"}, [{"$intsub": -3}, 7])])
             if "twin" in sw:
                 # values that compare (and hash) equal to one already in the pool but are written
                 # differently: Decimal exponents, equal instants at another offset, 0.0 / -0.0
@@ -263,13 +267,20 @@ class C02(PropBase):
             return
         if not d2.ok:
             sess.violation("decode-raised", i, {"t": tsrc, "exc": f"{type(d2.exc).__name__}: {d2.exc}"[:200]}, sig=f"decode-raised:{type(d2.exc).__name__}{tag}")
-        elif not model.same(d2.value, rec["v"]):
+        elif not model.same(d2.value, rec["v"]) and not _equal_instance_of_the_hint(step["t"], d2.value, rec["v"]):
             sess.violation("codec-roundtrip-mismatch", i, {"t": tsrc, "want": _s(model.canon(rec["v"])), "got": _s(model.canon(d2.value))},
                            sig="codec-roundtrip-mismatch" + tag)
 
 
 def _identity(x):
     return x
+
+
+def _equal_instance_of_the_hint(t, got, want) -> bool:
+    """A scalar hint with a subclass instance as value (True for int): what comes back is an instance of
+    the hinted class that equals the value - the statement's `equals v`."""
+    cls = {"int": int, "float": float, "str": str}.get(t["k"])
+    return cls is not None and type(got) is cls and isinstance(want, cls) and type(want) is not cls and got == want
 
 
 def _is_bytes_t(t) -> bool:
